@@ -24,6 +24,9 @@ const (
 )
 
 func init() {
+	mutant(&Mutant{Name: "c01-builtin-rewritten-with-spread-arguments", Property: "C01", File: "js/js.go",
+		Old: "} else if dot, ok := expr.X.(*js.DotExpr); ok && !spread && !dot.Optional {", New: "} else if dot, ok := expr.X.(*js.DotExpr); ok && !dot.Optional {",
+		Rule: "R01.44", Construct: "only for calls without spread arguments"})
 	mutant(&Mutant{Name: "c01-octal-escape-extended-by-merge", Property: "C01", File: "js/util.go",
 		Old: "if lit, ok := left.X.(*js.LiteralExpr); ok && lit.TokenType == js.StringToken && !endsInOctalEscape(lit.Data, strings[len(strings)-1].Data) {", New: "if lit, ok := left.X.(*js.LiteralExpr); ok && lit.TokenType == js.StringToken {",
 		Rule: "R01.41", Construct: "joins the list only if it does not end in an open octal escape"})
@@ -123,7 +126,8 @@ func runC01(c *Ctx) {
 	c.r0139(pk)
 	c.r0140(pk)
 	c.r0141(pk)
-	c.alsoUnder(map[string]string{"R09.22": "R01.36", "R09.23": "R01.37"}, nil, func() { c.r0922(pk); c.r0923(pk) })
+	c.r0144(pk)
+	c.alsoUnder(map[string]string{"R09.22": "R01.36", "R09.23": "R01.37", "R09.24": "R01.42", "R09.25": "R01.43"}, nil, func() { c.r0922(pk); c.r0923(pk); c.r0924(pk); c.r0925(pk) })
 }
 
 // R01.13: traversals of binding patterns reach every nested binding.
